@@ -1221,3 +1221,27 @@ mod tests {
         assert_eq!(w, g.0)
     }
 }
+
+/// Verification hooks: add-only, compiled only with `--cfg john_yu_sm9_core_verif`.
+/// Re-exports the tower types (F_q^4, F_q^12), the final-exponentiation routines and the two Miller loops,
+/// which are otherwise crate-private, so that they can be exercised on arbitrary elements.
+#[cfg(john_yu_sm9_core_verif)]
+pub mod verif_hooks {
+    pub use crate::fields::{FieldElement, Fq as RawFq, Fq12, Fq2 as RawFq2, Fq4};
+    pub use crate::pairings::verif_hooks::{chain_exponents, fq12_pow, loop_count};
+
+    /// Miller loop of `pairing()` (Jacobian numerator / denominator form); operands must be affine (z = 1)
+    pub fn miller_g2(p: &crate::G1, q: &crate::G2) -> Fq12 {
+        crate::pairings::verif_hooks::miller_g2(&q.0, &p.0)
+    }
+    /// Miller loop of `fast_pairing()` / `G2Prepared` (precomputed line coefficients); operands must be affine
+    pub fn miller_prepared(p: &crate::G1, q: &crate::G2) -> Fq12 {
+        crate::pairings::verif_hooks::miller_prepared(&q.0, &p.0)
+    }
+    pub fn gt_from_fq12(x: Fq12) -> crate::Gt {
+        crate::Gt(x)
+    }
+    pub fn gt_to_fq12(x: &crate::Gt) -> Fq12 {
+        x.0
+    }
+}
